@@ -1610,6 +1610,7 @@ func externalCase(c *core.Ctx, r *rand.Rand, caseIdx int) {
 	// 1 MiB. Quick: one chunk of 1 MiB+1 in the first external case; thorough: 1 MiB-1, 1 MiB, 1 MiB+1
 	// and 3 MiB+17 in every 7th external case.
 	var bigSizes []int
+	var bigScratch []byte
 	switch {
 	case c.Tier == "thorough" && (caseIdx/kinds)%7 == 0:
 		bigSizes = []int{1<<20 - 1, 1 << 20, 1<<20 + 1, 3<<20 + 17}
@@ -1636,7 +1637,12 @@ func externalCase(c *core.Ctx, r *rand.Rand, caseIdx int) {
 					if m > left {
 						m = left
 					}
-					row := make([]byte, m)
+					// rows of a big chunk come from ONE reused 64 KiB scratch buffer that is poisoned as soon as
+					// Write has returned (a size-dependent zero-copy path would keep seeing the caller's writes)
+					if bigScratch == nil {
+						bigScratch = make([]byte, 65536)
+					}
+					row := bigScratch[:m]
 					if r.Intn(2) == 0 {
 						r.Read(row)
 					} else {
@@ -1648,6 +1654,9 @@ func externalCase(c *core.Ctx, r *rand.Rand, caseIdx int) {
 						c.Fail("snappy-roundtrip", "write error: "+err.Error())
 					}
 					plain = append(plain, row...)
+					for i := range row {
+						row[i] = 0xEE
+					}
 					left -= m
 				}
 				rows = 0
